@@ -22,6 +22,8 @@ the whole package.
 """
 import ast
 import copy
+import os
+import sys
 
 from .refnorm import functions_of, load_inventory, local_names
 from .inline import _strip_doc, _walk_own
@@ -214,6 +216,8 @@ def lower_records(trees, report, unknown=None):
         if any(a.attr in ("_asdict", "_fields", "_make", "_field_defaults", "__dict__") and _mentions_record(a, K, recs) for a in sum(attr_uses.values(), [])):
             bad = True
         if bad:
+            if os.environ.get("VERIF_DEBUG_RESTRUCTURE"):
+                print("record used beyond construction / annotation", K, file=sys.stderr)
             del recs[K]
             continue
     if not recs:
@@ -239,56 +243,74 @@ def lower_records(trees, report, unknown=None):
     by_name = {}
     for rel, q, fnode, cls in all_funcs:
         by_name.setdefault((fnode.name, cls is not None), []).append(fnode)
-    for _round in range(3):
-        seen_args = {}
-        for rel, q, fnode, cls in all_funcs:
-            typed_here = {}
-            for a_ in fnode.args.args + fnode.args.kwonlyargs:
-                for K in recs:
-                    if _ann_is(a_.annotation, K) or param_types.get((fnode.name, cls is not None, a_.arg)) == K:
-                        typed_here[a_.arg] = K
+    # optimistic: a parameter holds a K when every call site passes a K value or another such parameter
+    seen_args = {}
+    for rel, q, fnode, cls in all_funcs:
+        own_params = {a_.arg for a_ in fnode.args.args + fnode.args.kwonlyargs}
+        typed_here = {}
+        for a_ in fnode.args.args + fnode.args.kwonlyargs:
+            for K in recs:
+                if _ann_is(a_.annotation, K):
+                    typed_here[a_.arg] = K
+        stored = {x.id for x in ast.walk(fnode) if isinstance(x, ast.Name) and isinstance(x.ctx, (ast.Store, ast.Del))}
+        for _ in range(2):
             for n in ast.walk(fnode):
                 if isinstance(n, ast.Assign) and len(n.targets) == 1 and isinstance(n.targets[0], ast.Name):
                     for K in recs:
                         if _is_record_value(n.value, K, {k for k, v in typed_here.items() if v == K}, returns):
                             typed_here[n.targets[0].id] = K
-            for c in ast.walk(fnode):
-                if not isinstance(c, ast.Call):
-                    continue
-                if isinstance(c.func, ast.Name):
-                    key = (c.func.id, False)
-                elif isinstance(c.func, ast.Attribute) and isinstance(c.func.value, ast.Name) and c.func.value.id in ("self", "cls"):
-                    key = (c.func.attr, True)
+        for c in ast.walk(fnode):
+            if not isinstance(c, ast.Call):
+                continue
+            if isinstance(c.func, ast.Name):
+                key = (c.func.id, False)
+            elif isinstance(c.func, ast.Attribute) and isinstance(c.func.value, ast.Name) and c.func.value.id in ("self", "cls"):
+                key = (c.func.attr, True)
+            else:
+                continue
+            tgt = by_name.get(key)
+            if not tgt or len(tgt) != 1:
+                continue
+            params = [x.arg for x in tgt[0].args.args]
+            if key[1]:
+                params = params[1:]
+            if any(isinstance(x, ast.Starred) for x in c.args) or any(k.arg is None for k in c.keywords):
+                for pn in params:
+                    seen_args.setdefault(key + (pn,), []).append(("bad", None))
+                continue
+            for pn, av in list(zip(params, c.args)) + [(k.arg, k.value) for k in c.keywords]:
+                kk = None
+                for K in recs:
+                    if _is_record_value(av, K, {k for k, v in typed_here.items() if v == K}, returns):
+                        kk = K
+                if kk is not None:
+                    seen_args.setdefault(key + (pn,), []).append(("K", kk))
+                elif isinstance(av, ast.Name) and av.id in own_params and av.id not in stored:
+                    seen_args.setdefault(key + (pn,), []).append(("dep", (fnode.name, cls is not None, av.id)))
                 else:
-                    continue
-                tgt = by_name.get(key)
-                if not tgt or len(tgt) != 1:
-                    continue
-                params = [x.arg for x in tgt[0].args.args]
-                if key[1]:
-                    params = params[1:]
-                if any(isinstance(x, ast.Starred) for x in c.args) or any(k.arg is None for k in c.keywords):
-                    for pn in params:
-                        seen_args.setdefault(key + (pn,), []).append(None)
-                    continue
-                for pn, av in list(zip(params, c.args)) + [(k.arg, k.value) for k in c.keywords]:
-                    kk = None
-                    for K in recs:
-                        if _is_record_value(av, K, {k for k, v in typed_here.items() if v == K}, returns):
-                            kk = K
-                    seen_args.setdefault(key + (pn,), []).append(kk)
-        new = {k: v[0] for k, v in seen_args.items() if v and v[0] is not None and all(x == v[0] for x in v)}
-        if new == param_types:
+                    seen_args.setdefault(key + (pn,), []).append(("bad", None))
+    param_types = {}
+    for k, v in seen_args.items():
+        ks = {x[1] for x in v if x[0] == "K"}
+        if len(ks) == 1 and not any(x[0] == "bad" for x in v):
+            param_types[k] = next(iter(ks))
+    while True:
+        drop = [k for k in param_types if any(x[0] == "dep" and param_types.get(x[1]) != param_types[k] for x in seen_args[k])]
+        if not drop:
             break
-        param_types = new
-    # all or nothing per record type: an attribute named like a field on a receiver that is not known to hold the
-    # record (outside call position: a method of something else, e.g. list.index) makes the type ambiguous
+        for k in drop:
+            del param_types[k]
+    # all or nothing per record type: K values must only travel where they are tracked (locals, parameters of
+    # functions called by name, return values); a K stored in an attribute or container, yielded, or handed to
+    # something that is not a by-name call could surface on a receiver this pass does not know to be a K
     typed_by_fn = {}
     for K, info in list(recs.items()):
-        fields = info["fields"]
-        ambiguous = False
+        escapes = False
         for rel, tree in trees.items():
-            callfuncs = {id(n.func) for n in ast.walk(tree) if isinstance(n, ast.Call)}
+            pm = {}
+            for n in ast.walk(tree):
+                for c in ast.iter_child_nodes(n):
+                    pm[id(c)] = n
             for q, fnode, cls in functions_of(tree):
                 typed = set()
                 for a_ in fnode.args.args + fnode.args.kwonlyargs + fnode.args.posonlyargs:
@@ -304,13 +326,39 @@ def lower_records(trees, report, unknown=None):
                             typed.add(n.target.id)
                 typed_by_fn[(K, rel, q)] = typed
                 for n in ast.walk(fnode):
-                    if isinstance(n, ast.Attribute) and n.attr in fields and not _is_record_value(n.value, K, typed, returns) and id(n) not in callfuncs:
-                        # self.<field> of another class is fine when that class is not the record
-                        if isinstance(n.value, ast.Name) and n.value.id in ("self", "cls"):
-                            continue
-                        ambiguous = True
-            # module / class level
-        if ambiguous:
+                    if not _is_record_value(n, K, typed, returns) or not isinstance(getattr(n, "ctx", ast.Load()), ast.Load):
+                        continue
+                    par = pm.get(id(n))
+                    ok_use = False
+                    if isinstance(par, (ast.Assign, ast.AnnAssign)) and getattr(par, "value", None) is n:
+                        tg = par.targets if isinstance(par, ast.Assign) else [par.target]
+                        ok_use = all(isinstance(t, ast.Name) or (isinstance(t, ast.Tuple) and all(isinstance(e, ast.Name) for e in t.elts)) for t in tg)
+                    elif isinstance(par, ast.Return):
+                        ok_use = returns.get((fnode.name, cls is not None)) == K
+                    elif isinstance(par, (ast.Attribute, ast.Subscript)) and par.value is n:
+                        ok_use = True
+                    elif isinstance(par, ast.Call) and n in par.args or isinstance(par, ast.keyword):
+                        call = par if isinstance(par, ast.Call) else pm.get(id(par))
+                        key = None
+                        if isinstance(call, ast.Call) and isinstance(call.func, ast.Name):
+                            key = (call.func.id, False)
+                        elif isinstance(call, ast.Call) and isinstance(call.func, ast.Attribute) and isinstance(call.func.value, ast.Name) and call.func.value.id in ("self", "cls"):
+                            key = (call.func.attr, True)
+                        if key is not None and key in by_name and len(by_name[key]) == 1:
+                            params = [x.arg for x in by_name[key][0].args.args]
+                            if key[1]:
+                                params = params[1:]
+                            pn = par.arg if isinstance(par, ast.keyword) else (params[call.args.index(n)] if call.args.index(n) < len(params) else None)
+                            ok_use = pn is not None and param_types.get(key + (pn,)) == K or _ann_is(next((x.annotation for x in by_name[key][0].args.args + by_name[key][0].args.kwonlyargs if x.arg == pn), None), K)
+                    elif isinstance(par, ast.Compare) or isinstance(par, (ast.If, ast.While, ast.BoolOp, ast.UnaryOp, ast.IfExp)) or isinstance(par, ast.Expr):
+                        ok_use = True
+                    elif isinstance(par, ast.Starred) or isinstance(par, ast.comprehension):
+                        ok_use = True
+                    if not ok_use:
+                        if os.environ.get("VERIF_DEBUG_RESTRUCTURE"):
+                            print("  record value escapes:", K, rel, q, ast.unparse(par)[:100] if par is not None else "?", file=sys.stderr)
+                        escapes = True
+        if escapes:
             del recs[K]
     if not recs:
         return set()
